@@ -388,6 +388,14 @@ func (fx *FnExec) specEnvAt(st *State, head *ssa.BasicBlock) *SpecEnv {
 		env.entrySt = est
 		env.entryLocals = func(name string) (specVal, bool) { return fx.localAt(est, name, pos) }
 	}
+	// visited(k): the keys already handed out by this range loop over a map
+	for _, ins := range head.Instrs {
+		if nx, ok := ins.(*ssa.Next); ok && !nx.IsString {
+			if it, ok := fx.vals[nx.Iter]; ok && fx.mapIter[nx.Iter] != nil {
+				env.mapIt, env.mapItInfo = it, fx.mapIter[nx.Iter]
+			}
+		}
+	}
 	// range_at<N>: the index loop N (an enclosing range loop) is currently visiting
 	for h2, l2 := range fx.loops {
 		if l2 == li || len(h2.Instrs) == 0 {
